@@ -394,3 +394,251 @@ def has_dup_target(pre, root):
             return True
         todo.extend(tg)
     return False
+
+
+def changes_state(cmd):
+    return cmd.split()[0] not in ("get", "init", "setorder", "eff")
+
+
+# ----------------------------------------------------------------------------------------------- the case runner
+class Runner:
+    def __init__(self, ctx, R, lib, pid):
+        self.ctx, self.R, self.lib, self.pid = ctx, R, lib, pid
+        self.cmds, self.expect, self.meta = [], [], []
+        self.viol = {}
+        self.mode = self.probe()
+        self.push(f"mode {self.mode[0]} {self.mode[1]}", "ok", None)
+
+    def push(self, cmd, obs, meta):
+        self.cmds.append(drv_line(cmd)); self.expect.append(obs); self.meta.append(meta)
+
+    def probe(self):
+        """which variant of the two recorded defects does this tree implement (selects the model variant only; the
+        oracles below do not depend on it)"""
+        real = Real(self.lib, self.lib.detached())
+        real.execute("init 3 a1|-|- -"); real.execute("remove i1")
+        f4 = 1 if real.tm.triggers[0].effects[0].trigger_id == -1 else 0
+        real.reset()
+        real.execute("init 2 a1.d1|- -"); real.execute("tree i0")
+        f15 = 1 if len(real.tm.triggers) == 4 else 0
+        return f4, f15
+
+    def violation(self, sig, what, replay, size):
+        key = tuple(sorted(sig.items()))
+        if key not in self.viol or size < self.viol[key][0]:
+            self.viol[key] = (size, sig, what, replay)
+
+    def flush_violations(self):
+        for _, (size, sig, what, replay) in sorted(self.viol.items(), key=lambda kv: kv[1][0]):
+            self.R.violation(sig, what, replay)
+
+    def case(self, real, env, base, ops, tags=(), oracle=None):
+        """one history: `base` (an init command) followed by `ops` on a freshly reset manager"""
+        R = self.R
+        real.reset()
+        self.push("reset", "ok", None)
+        hist = []
+        links = "a" in base.split()[2] or "d" in base.split()[2] if base.startswith("init") else True
+        changed = False
+        status = "ok"
+        synced = True
+        gen = ops if callable(ops) else None
+        ops = [] if gen else list(ops)
+        queue = [base] + ops
+        qi = 0
+        while True:
+            if qi < len(queue):
+                cmd = queue[qi]
+            elif gen is not None:
+                cmd = gen(len(real.tm.triggers), qi - 1)
+                if cmd is None:
+                    break
+                ops.append(cmd)
+            else:
+                break
+            qi += 1
+            quiet = cmd.startswith("q ")
+            body = cmd[2:] if quiet else cmd
+            pre = Snapshot(real, with_order=synced)
+            st, ret = real.execute(body)
+            hist.append(cmd)
+            replay = {"env": env, "base": base, "ops": hist[1:]}
+            if st == "error":
+                self.push(cmd, "error", replay)
+                status = "error"
+                break
+            obs = real.observe(ret, with_order=not quiet)
+            synced = not quiet
+            bad = (oracle or self.c06)(real, body, pre, ret, not quiet)
+            stop = False
+            for item in bad:
+                clause, text = item[0], item[1]
+                opn = item[2] if len(item) > 2 else body.split()[0]
+                sig = {"op": opn, "clause": clause}
+                if body.split()[0] in ("tree", "treepp") and clause != "removed-target":
+                    ws = body.split()
+                    sig["dup_target"] = has_dup_target(pre, real._sel_obj(pre, ws[1]))
+                    sig["grouped"] = body.split()[0] == "treepp" and ws[5] != "none"
+                self.violation(sig, f"{text}  [after {hist}]", replay, len(base) + sum(len(h) for h in hist))
+                if clause in ("id-position", "effects-kept"):
+                    stop = True
+            if stop:
+                status = "violation"
+                break                  # aliased list: the value model cannot follow, the history ends here
+            self.push(cmd, obs, replay)
+            if changes_state(body):
+                changed = True
+        opn = [c.split()[1] if c.startswith("q ") else c.split()[0] for c in ops]
+        R.case(key=(env, base) + tuple(ops), nontrivial=bool(links and changed and status == "ok"),
+               sample={"env": env, "base": base, "ops": list(ops), "last": self.expect[-1][:160]},
+               tags=tuple("op:" + o for o in opn) + (f"n:{base.split()[1]}" if base.startswith("init") else "n:?", "st:" + status) + tuple(tags))
+
+    @staticmethod
+    def c06(real, cmd, pre, ret, with_order):
+        return real.c06_oracle(cmd, pre, ret, with_order)
+
+    def compare(self):
+        drv = self.ctx.driver()
+        R = self.R
+        if drv is None:
+            R.extra["driver"] = "unavailable (Lean build failed) - oracles only"
+            return
+        out = drv.batch(self.cmds)
+        # a history is a run of lines between two `reset`s: report only its first disagreement
+        skip = False
+        for cmd, o, x, m in zip(self.cmds, out, self.expect, self.meta):
+            if cmd == "reset":
+                skip = False
+            if skip:
+                continue
+            if o != x:
+                R.mismatch(cmd, m, impl=x, model=o)
+                skip = True
+            else:
+                R.traces += 1
+
+
+# ----------------------------------------------------------------------------------------------- oracle of C07
+def c07_oracle(real, cmd, pre, ret, with_order):
+    """the permutation laws of C07 on the real objects (by identity; names are unique per object in the harness).
+    Needs the display order before the operation (pre.order) and after it."""
+    ws = cmd.split()
+    op = ws[0]
+    out = []
+    if op not in ("move", "reorder", "remove", "get") or pre.order is None or not with_order:
+        return out
+    tm = real.tm
+    trigs = list(tm.triggers)
+    st, order = common.outcome(lambda: list(tm.trigger_display_order))
+    if st != "ok" or sorted(order) != list(range(len(trigs))):
+        return [("display-perm", f"display order {order} is not a permutation after {cmd}")]
+    disp = [trigs[i] for i in order]
+    D = [pre.trigs[i] for i in pre.order]
+    same = lambda a, b: len(a) == len(b) and all(x is y for x, y in zip(a, b))
+    nm = lambda l: [t.name for t in l]
+    if op == "move":
+        ids = [pre.trigs[int(x)] for x in ws[1].split(",")]
+        k = int(ws[2])
+        isin = lambda x: any(x is y for y in ids)
+        want = [x for x in D[:k] if not isin(x)] + ids + [x for x in D[k:] if not isin(x)]
+        if not same(disp, want):
+            out.append(("move-spec", f"display sequence {nm(disp)} after {cmd}, expected {nm(want)} (display sequence before: {nm(D)})"))
+        if not same(trigs, want):
+            out.append(("move-list", f"list order {nm(trigs)} after {cmd}, expected {nm(want)}"))
+    elif op == "reorder":
+        want = D if ws[1] == "None" else [pre.trigs[int(x)] for x in ws[1].split(",")]
+        if not same(trigs, want) or not same(disp, want):
+            out.append(("reorder-spec", f"list {nm(trigs)} / display {nm(disp)} after {cmd}, expected {nm(want)}"))
+    elif op == "remove":
+        S = [] if ws[1] == "-" else [real._sel_obj(pre, w) for w in ws[1].split(",")]
+        isin = lambda x: any(x is y for y in S)
+        if not same(trigs, [x for x in pre.trigs if not isin(x)]):
+            out.append(("remove-list", f"list {nm(trigs)} after {cmd} on {nm(pre.trigs)}"))
+        if not same(disp, [x for x in D if not isin(x)]):
+            out.append(("remove-display", f"display sequence {nm(disp)} after {cmd}, before {nm(D)}"))
+    elif op == "get":
+        want = real._sel_obj(pre, ws[1])
+        got = ret[0][1][0] if ret else None
+        if want is not None and got is not want:
+            out.append(("select", f"{cmd} returned {getattr(got, 'name', None)!r}, expected {want.name!r}"))
+    return out
+
+
+def select_agreement(real):
+    """selecting by index, by display index or by object reference designates the same trigger (all triggers of the
+    current state). Returns a list of (clause, text)."""
+    tm, TS = real.tm, real.lib.TS
+    out = []
+    order = list(tm.trigger_display_order)
+    for i, t in enumerate(list(tm.triggers)):
+        try:
+            a, b = tm.get_trigger(i), tm.get_trigger(TS.index(i))
+            c, d = tm.get_trigger(TS.display(order.index(i))), tm.get_trigger(TS.trigger(t))
+        except Exception as e:           # noqa
+            out.append(("select", f"selection of trigger {i} raised {type(e).__name__}")); continue
+        if not (a is t and b is t and c is t and d is t):
+            out.append(("select", f"selectors of trigger {i} disagree: {[x.name if x is not None else None for x in (a, b, c, d)]}"))
+    return out
+
+
+class RealOA:
+    """the `oa` commands on a real Trigger: kind 'e' = effects / effect_order, 'c' = conditions / condition_order"""
+
+    def __init__(self, lib, kind):
+        self.lib, self.kind = lib, kind
+        tm = lib.detached()
+        self.t = tm.add_trigger("oa")
+        self.reset()
+
+    def lst(self):
+        return self.t.effects if self.kind == "e" else self.t.conditions
+
+    def reset(self):
+        if self.kind == "e":
+            self.t.effects = []
+        else:
+            self.t.conditions = []
+        self.ren, self.keep = {}, []
+
+    def execute(self, cmd):
+        ws = cmd.split()
+        t, e = self.t, self.kind == "e"
+
+        def run():
+            op = ws[1]
+            if op == "reset":
+                self.reset()
+            elif op == "append":
+                (t.new_effect.research_technology(technology=1) if e else t.new_condition.timer(timer=5))
+            elif op == "rmat":
+                (t.remove_effect(effect_index=int(ws[2])) if e else t.remove_condition(condition_index=int(ws[2])))
+            elif op == "rmdisp":
+                (t.remove_effect(display_index=int(ws[2])) if e else t.remove_condition(display_index=int(ws[2])))
+            elif op == "rmobj":
+                p = int(ws[2])
+                if p >= len(self.lst()):
+                    raise ValueError("no such object")
+                (t.remove_effect(effect=t.effects[p]) if e else t.remove_condition(condition=t.conditions[p]))
+            elif op == "setorder":
+                l = [] if ws[2] == "-" else [int(x) for x in ws[2].split(",")]
+                if e:
+                    t.effect_order = l
+                else:
+                    t.condition_order = l
+            elif op == "obs":
+                items = list(self.lst())
+                for x in items:
+                    if id(x) not in self.ren:
+                        self.ren[id(x)] = len(self.ren); self.keep.append(x)
+                order = list(t.effect_order if e else t.condition_order)
+                return f"ok items={','.join(str(self.ren[id(x)]) for x in items)} order={show_list(order)}", items, order
+            else:
+                raise RuntimeError("unknown oa command")
+            return "ok", None, None
+        with contextlib.redirect_stdout(io.StringIO()):
+            st, r = common.outcome(run)
+        if st == "error":
+            if r == "RuntimeError":
+                raise RuntimeError(cmd)
+            return "error", None, None
+        return r
